@@ -30,6 +30,7 @@ func main() {
 		for i, o := range runImpl(c) {
 			fmt.Printf("%-40s => %s\n", c.Lines[i], o)
 		}
+		fmt.Fprintf(os.Stderr, "disciplineExit=%d prefixFree=%v\n", disciplineExit(c), prefixFree(c))
 		return
 	}
 	fs := flag.NewFlagSet("gcsdrv", flag.ExitOnError)
